@@ -135,6 +135,10 @@ def parse_ctr(path):
             continue
         if head is None:
             raise Undecided('%s:%d: clause outside a block' % (path, ln))
+        if kw == 'forstr':
+            m = re.match(r'(\w+)\s+in\s+(.+)$', rest)
+            head['for'].append((m.group(1), [x.strip() for x in m.group(2).split(',')], None))
+            continue
         if kw == 'for':
             # for N in 0..2   |  for N in 1,2,4
             m = re.match(r'(\w+)\s+in\s+(.+)$', rest)
@@ -239,6 +243,9 @@ def add_clause(b, kw, rest, path, ln):
         b.noinit = True
     elif kw == 'recursive':
         b.recursive = True
+    elif kw == 'abstable':
+        # abstable <abstract function> <operand struct> <operand harness variable>
+        b.abstable = getattr(b, 'abstable', []) + [rest.split()]
     elif kw == 'define':
         b.defines = getattr(b, 'defines', []) + rest.split()
     elif kw == 'tier':
@@ -328,7 +335,8 @@ def unit_json(unit, defines=()):
     drv = os.path.join(ROOT, 'fe', 'drivers', unit + '.cpp')
     if not os.path.exists(drv):
         raise Undecided('no driver TU %s' % drv)
-    out = os.path.join(SCRATCH, 'ast-%s%s-%s.json' % (unit, ''.join('-' + d for d in defines), repo_hash()))
+    dh = hashlib.sha256(open(drv, 'rb').read()).hexdigest()[:8]
+    out = os.path.join(SCRATCH, 'ast-%s%s-%s-%s.json' % (unit, ''.join('-' + d for d in defines), repo_hash(), dh))
     if os.path.exists(out):
         return out
     cmd = ['clang++', '-std=c++17', '-I', os.path.join(REPO, 'include'), '-fsyntax-only', '-Xclang',
@@ -361,6 +369,56 @@ def get_unit(unit, blocks, mode):
 # --------------------------------------------------------------------------
 #  C generation for one block
 # --------------------------------------------------------------------------
+def abstract_decl(u, fi, table=None):
+    if table is not None:
+        return abstract_decl_table(u, fi, table)
+    return abstract_decl_uf(u, fi)
+
+
+def abstract_decl_table(u, fi, table):
+    """table rendering of an abstract operator applied to ONE fixed operand (used by the forms, whose specification
+    needs a quantified prefix-sum axiom, in which cbmc allows array reads but no function applications): the piece of
+    (O a) on absolute interval j is the ghost table entry BS_TAB_f.d[j]; the stub REQUIRES that it is called with the
+    operand's own piece for that interval, its grid and that interval index (checked at every call site)"""
+    fname, optype, opvar = table
+    tin = fi.params[0][1]
+    nin, nout = tin.args[1], fi.ret.args[1]
+    pn = [p[0] for p in fi.params]
+    rt = u.cty(fi.ret.base())
+    out = ['/* abstract child operator applied to the fixed operand BS_OPD_%s: table rendering (assumed contract) */' % fname,
+           'struct bs_tab_%s { %s d[BS_CAP]; } BS_TAB_%s;' % (fname, rt, fname),
+           'struct %s BS_OPD_%s;' % (optype, fname),
+           fi.sig,
+           '  __CPROVER_requires(HASINT(BS_OPD_%s._support, %s) && grid_eq(%s, SP_GRID(BS_OPD_%s)) && %s)' % (
+               fname, pn[2], pn[1], fname,
+               ' && '.join('%s.c[%d] == COEF(BS_OPD_%s, %s, %d)' % (pn[0], i, fname, pn[2], i) for i in range(nin)))]
+    for k in range(nout):
+        out.append('  __CPROVER_ensures(__CPROVER_return_value.c[%d] == BS_TAB_%s.d[%s].c[%d])' % (k, fname, pn[2], k))
+    out.append('  __CPROVER_assigns()')
+    out.append(';')
+    return out
+
+
+def abstract_decl_uf(u, fi):
+    """an abstract child operator's transform: declared only, under the assumed contract 'a deterministic, side-effect
+    free function of (input coefficients, grid, interval index) that does not throw' -- one uninterpreted function
+    per output component"""
+    cls = u.mangle(fi.cls)
+    tin = fi.params[0][1]
+    nin, nout = tin.args[1], fi.ret.args[1]
+    out = ['/* abstract child operator (driver TU): assumed contract */']
+    for k in range(nout):
+        out.append('T __CPROVER_uninterpreted_%s_%d_%d(%s, size_t, size_t);' % (cls, nin, k, ', '.join(['T'] * nin)))
+    out.append(fi.sig)
+    pn = [p[0] for p in fi.params]
+    for k in range(nout):
+        out.append('  __CPROVER_ensures(__CPROVER_return_value.c[%d] == __CPROVER_uninterpreted_%s_%d_%d(%s, %s._data.id, %s))' % (
+            k, cls, nin, k, ', '.join('%s.c[%d]' % (pn[0], i) for i in range(nin)), pn[1], pn[2]))
+    out.append('  __CPROVER_assigns()')
+    out.append(';')
+    return out
+
+
 def ensure_type(u, name):
     """make sure the C struct `name` used by a lemma body is defined (lemmas name types, not functions)"""
     if name in u.type_done and u.type_done[name] is not None:
@@ -455,7 +513,7 @@ def gen_c(b, blocks, path):
         seen.add(nm)
         fi = u.fn_by_cname[nm]
         need.append(fi)
-        for c in sorted(fi.calls):
+        for c in sorted(getattr(fi, 'calls', None) or []):
             todo.append(c)
     order = [fi for fi in u.order if fi in need]
     for fi in need:
@@ -475,14 +533,19 @@ def gen_c(b, blocks, path):
     out.append('#include "%s/rt/bs_rt_post.h"' % ROOT)
     out.append('#include "%s/rt/spec.h"' % ROOT)
     out.append('#include "%s/rt/harness.h"' % ROOT)
-    used_text = '\n'.join('\n'.join(fi.body) for fi in order)
+    used_text = '\n'.join('\n'.join(fi.body or []) for fi in order)
     for kind, m in sorted(u.shim_need):
         if kind == 'vec_eq' and m != 'vec_T' and (m + '_eq(') in used_text:
             out += vec_eq_shim(u, m)
     for fi in order:
-        out.append(fi.sig + ';')
+        if not getattr(fi, 'abstract', False):
+            out.append(fi.sig + ';')
     linemap = {}      # line number -> (function, kind, tags, text)
     for fi in order:
+        if getattr(fi, 'abstract', False):
+            tab = [t for t in getattr(b, 'abstable', []) if t[0] == fi.cname]
+            out += abstract_decl(u, fi, tab[0] if tab else None)
+            continue
         cb = byname.get(fi.cname)
         out.append('/* %s:%s-%s */' % (fi.src[0], fi.src[1], fi.src[2]))
         out.append(fi.sig)
@@ -511,6 +574,8 @@ def gen_c(b, blocks, path):
             else:
                 out.append('  %s %s;' % (u.cty(t.base()), nm))
             args.append(nm)
+        for fname, optype, opvar in getattr(b, 'abstable', []):
+            out.append('  { struct bs_tab_%s bs_tt; BS_TAB_%s = bs_tt; BS_OPD_%s = %s; }' % (fname, fname, fname, opvar))
         for s in b.pre:
             out.append('  ' + s)
         call = '%s(%s)' % (b.fn, ', '.join(args))
@@ -772,7 +837,7 @@ def decide(gb, b, tmo, only=None, extra=None):
     return list(merged.values()), 'obligation by obligation (%d separate queries)' % len(groups)
 
 
-def refute_small(r, b, cfile, hname, cmd, ids, tmo):
+def refute_small(r, b, cfile, hname, cmd, ids, tmo, want_all=False):
     base = r.base
     defs = ['-D' + d for d in getattr(b, 'defines', [])]
     rc, out, err, dt = sh(['goto-cc', '--function', hname, '-DBS_CANARY()=', '-DBS_SMALLGRID=1', '-DBS_CAP=8UL'] + defs + ['-o', base + '.s.gb', cfile], 120)
@@ -785,6 +850,8 @@ def refute_small(r, b, cfile, hname, cmd, ids, tmo):
     if rc != 0:
         return set()
     results, how = decide(base + '.t.gb', b, min(tmo, 120), only=ids, extra=['--unwind', '10'])
+    if want_all:
+        return results
     if results is None:
         return set()
     return {x['property'] for x in results if x.get('status') == 'FAILURE'}
@@ -872,7 +939,8 @@ def run_block(r, blocks, keep=False, verbose=False):
         cmd += ['--replace-call-with-contract', g]
     ctext = open(cfile).read()
     body_text = ctext[ctext.index('#include "%s/rt/harness.h"' % ROOT):]
-    for shim in SHIM_CONTRACTS + sorted(set(re.findall(r'\b(vec_\w+_eq)\(', body_text))):
+    abstract_fns = sorted(set(re.findall(r'\b(AbsUp_\w+__transform_\d+)\(', body_text)))
+    for shim in SHIM_CONTRACTS + sorted(set(re.findall(r'\b(vec_\w+_eq)\(', body_text))) + abstract_fns:
         if re.search(r'\b%s\(' % shim, body_text):
             cmd += ['--replace-call-with-contract', shim]
     try:
@@ -885,6 +953,31 @@ def run_block(r, blocks, keep=False, verbose=False):
     rc, out, err, dt = sh(cmd, 300)
     if rc != 0:
         r.reason = 'goto-instrument failed: ' + (err + out)[-1500:]
+        return r
+    if b.bounded:
+        # bounded stand-in (never counted as proved): only the small instance is examined -- every vector capped at 8
+        # elements, loops unwound completely, ghost relations defined from the contents, no quantifier left
+        rf_all = refute_small(r, b, cfile, hname, cmd, None, tmo, want_all=True)
+        if rf_all is None:
+            r.reason = 'bounded stand-in: the small instance could not be decided'
+            r.time = time.time() - t0
+            return r
+        for p in rf_all:
+            r.obligations.append({'id': p.get('property'), 'desc': p.get('description'), 'status': p.get('status'),
+                                  'tags': sorted(classify(p, linemap, hname)),
+                                  'line': (p.get('sourceLocation') or {}).get('line'), 'solver': p.get('solver'),
+                                  'bounded': b.bounded})
+        bad = [x for x in r.obligations if x['status'] == 'FAILURE']
+        und = [x for x in r.obligations if x['status'] not in ('SUCCESS', 'FAILURE')]
+        r.solver = ','.join(sorted({x.get('solver') or '?' for x in r.obligations}))
+        if bad:
+            r.status, r.reason = 'failed', ', '.join(x['id'] for x in bad[:6])
+        elif und or not r.obligations:
+            r.status, r.reason = 'undecided', 'bounded stand-in undecided: ' + ', '.join(x['id'] for x in und[:4])
+        else:
+            r.status, r.reason = 'bounded', 'bounded stand-in passed: ' + b.bounded
+        r.canary = 'n/a (bounded stand-in)'
+        r.time = time.time() - t0
         return r
     results, how = decide(base + '.b.gb', b, tmo)
     r.how = how
@@ -940,17 +1033,21 @@ def run_block(r, blocks, keep=False, verbose=False):
                                '-DBS_CANARY()=__CPROVER_assert(0, "[canary] end of harness reachable")',
                                '-DBS_SMALLGRID=1', '-DBS_CAP=8UL', '-DBS_OPAQUE_MUL=1'] + [d for d in defs if d != '-DBS_OPAQUE_MUL'] +
                               ['-o', base + '.c.gb', cfile], 120)
-        try:
-            src_gb2, _ = prepare_loops(base + '.c.gb', base + '.cu.gb', ctext, cfile, b)
-        except Undecided:
-            src_gb2 = base + '.c.gb'
-        cmd[-2], cmd[-1] = src_gb2, base + '.d.gb'
-        rc2, out2, err2, dt2 = sh(cmd, 300)
+        # the canary run is a small instance too: no loop contracts (loops unwound), multiplication opaque
+        if b.kind == 'lemma':
+            try:
+                src_gb2, lf2 = prepare_loops(base + '.c.gb', base + '.cu.gb', ctext, cfile, b)
+            except Undecided:
+                src_gb2, lf2 = base + '.c.gb', []
+            ccmd = [x for x in cmd if x != '--apply-loop-contracts'][:-2] + lf2 + [src_gb2, base + '.d.gb']
+        else:
+            ccmd = [x for x in cmd if x != '--apply-loop-contracts'][:-2] + [base + '.c.gb', base + '.d.gb']
+        rc2, out2, err2, dt2 = sh(ccmd, 300)
         if rc != 0 or rc2 != 0:
-            r.status, r.reason = 'undecided', 'canary build failed'
+            r.status, r.reason = 'undecided', 'canary build failed: ' + (err2 or '')[-300:]
         else:
             n_assert = sum(x.count('__CPROVER_assert(') for x in (b.body + b.post)) + 1
-            co = portfolio(base + '.d.gb', b.solvers or SOLVERS, ['--property', '%s.assertion.%d' % (hname, n_assert)], tmo)
+            co = portfolio(base + '.d.gb', b.solvers or SOLVERS, ['--unwind', '10', '--property', '%s.assertion.%d' % (hname, n_assert)], tmo)
             if any(x['status'] == 'done' and not any('[canary]' in (p.get('description') or '') for p in x['results']) for x in co):
                 co = [{'solver': '-', 'status': 'error', 'msg': 'canary property not found'}]
             cd = [x for x in co if x['status'] == 'done']
@@ -1039,6 +1136,7 @@ def check_property(pid, tier, blocks, verbose=True):
     res = run_blocks(sel, blocks, verbose=verbose, keep=True)
     known = load_known()
     undecided = [r for r in res if r.status == 'undecided']
+    bounded_blocks = [r for r in res if r.status == 'bounded']
     violations, knowns = [], []
     n_obl = n_dis = 0
     samples, functions, solver_time, by_solver = [], {}, 0.0, {}
@@ -1050,6 +1148,8 @@ def check_property(pid, tier, blocks, verbose=True):
             mine = pid in o['tags'] or 'support' in o['tags'] or (pid == 'C09' and 'C09' in o['tags'])
             if not mine:
                 continue
+            if r.status == 'bounded':
+                continue          # a bounded stand-in is reported separately and never counted as proved
             n_obl += 1
             if o['status'] == 'SUCCESS':
                 n_dis += 1
@@ -1068,8 +1168,14 @@ def check_property(pid, tier, blocks, verbose=True):
     for r, o, what in knowns:
         print('KNOWN-FINDING: property=%s %s [%s]' % (pid, what, o['id']))
     vio_files = []
+    done_blocks = {}
     for n, (r, o) in enumerate(violations):
-        rp = make_replay(pid, r, o, n, blocks)
+        # one native replay per block (the other failed obligations of the block point to it), at most 8 per check
+        if r.block.name in done_blocks or len(done_blocks) >= 8:
+            rp = make_replay(pid, r, o, n, blocks, same_as=done_blocks.get(r.block.name, 'replay budget of this check used up'))
+        else:
+            rp = make_replay(pid, r, o, n, blocks)
+            done_blocks[r.block.name] = rp[0]
         vio_files.append(rp)
     if undecided:
         for r in undecided:
@@ -1096,6 +1202,8 @@ def check_property(pid, tier, blocks, verbose=True):
             'discharged_by_backend': by_solver,
             'solver_wall_s': round(solver_time, 1),
             'undecided_blocks': [r.block.name for r in undecided],
+            'bounded_standins': [{'block': r.block.name, 'bound': r.block.bounded, 'obligations_checked_in_the_bound': len(r.obligations),
+                                  'note': 'NOT counted in obligations/discharged: a bounded check, not a proof'} for r in bounded_blocks],
             'known_findings': [{'obligation': o['id'], 'what': what} for r, o, what in knowns],
             'repo_include_hash': repo_hash(),
             'explanation': 'every listed obligation is generated by goto-instrument/cbmc from C that bs2c extracts on this run from the instantiated bodies in %s; proof-level means all of them were discharged, for all inputs and all loop iterations, under the stated assumptions' % REPO,
@@ -1112,7 +1220,7 @@ def check_property(pid, tier, blocks, verbose=True):
     return rc
 
 
-def make_replay(pid, r, o, n, blocks):
+def make_replay(pid, r, o, n, blocks, same_as=None):
     """write the replay file of one failed obligation; returns (path, confirmed_on_real_code)"""
     path = os.path.join(EVDIR, 'replay', '%s-%d.json' % (pid, n))
     rec = {'property': pid, 'block': r.block.name, 'obligation': o['id'], 'clause': clause_of(r, o),
@@ -1121,7 +1229,10 @@ def make_replay(pid, r, o, n, blocks):
     confirmed = False
     try:
         import replay as rp
-        confirmed = rp.build_and_run(rec, r, o, blocks, sys.modules[__name__])
+        if same_as is not None:
+            rec['replay_note'] = 'not replayed separately: %s' % same_as
+        else:
+            confirmed = rp.build_and_run(rec, r, o, blocks, sys.modules[__name__])
     except Exception as e:      # the replay machinery must never turn a failure into a pass
         rec['replay_error'] = '%s: %s' % (type(e).__name__, e)
     rec['confirmed'] = bool(confirmed)
@@ -1177,7 +1288,7 @@ def main(argv):
                         if o.get('line') and int(o['line']) in getattr(r, 'linemap', {}):
                             print('       ', r.linemap[int(o['line'])][3][:200])
         print('scratch:', SCRATCH)
-        return 0 if all(r.status == 'proved' for r in res) else 1
+        return 0 if all(r.status in ('proved', 'bounded') for r in res) else 1
     print('unknown command')
     return 2
 
